@@ -140,6 +140,72 @@ func TestDeviations(t *testing.T) {
 	})
 }
 
+// ---- ciphertext-level deviations: a well-formed ciphertext of a wrong value in ONE direct message (O1, and the
+// recipient's verification failure must be attributed to exactly the sender)
+
+type ctCase struct {
+	Setup     advrun.Setup
+	Cheater   int
+	Deviation string
+}
+
+func ctRun(c ctCase) *pbt.Fail {
+	lastSummary = ""
+	rep, err := advrun.Run(advrun.Case{Setup: c.Setup, Cheater: c.Cheater, Deviation: c.Deviation})
+	if err != nil {
+		return fail(err, c.Setup.Proto+":"+c.Deviation)
+	}
+	lastSummary = rep.Summary()
+	if rep.DevHits == 0 {
+		return pbt.Failf("harness-error:deviation-not-applied", "the deviation hook never fired")
+	}
+	if sig, d := rep.UnsoundBlame(); sig != "" {
+		return pbt.Failf(sig+":"+c.Deviation, d)
+	}
+	if sig, d := rep.WrongResult(); sig != "" {
+		return pbt.Failf(sig+":"+c.Deviation, d)
+	}
+	named := false
+	for _, id := range rep.Honest {
+		named = named || rep.BlamesExactly(id)
+	}
+	if !named {
+		return pbt.Failf("cheater-not-identified:"+c.Setup.Proto+":"+c.Deviation, "no honest party attributes the wrong value to its sender: "+lastSummary)
+	}
+	return nil
+}
+
+var ctProp = pbt.Define(pbt.Prop[ctCase]{Kind: "ciphertext-deviation", Run: ctRun, Journal: true, Class: func(c ctCase) (string, bool) {
+	return fmt.Sprintf("ct|%s|n=%d|%s|cheater=%d|%s", c.Setup.Proto, c.Setup.N, c.Deviation, c.Cheater, lastSummary), true
+}})
+
+// TestCtDeviations enumerates protocol x deviation (quick: n=2, one cheater position per deviation; thorough: n=2,3, all).
+func TestCtDeviations(t *testing.T) {
+	rec := ev.Get()
+	i := 0
+	for _, p := range []string{proto.CMPKeygen, proto.CMPRefresh, proto.CMPSign, proto.CMPPresign, proto.CMPPresignFull} {
+		devs := advrun.CiphertextDeviationsFor(p)
+		ns := []int{2}
+		if rec.Thorough() {
+			ns = []int{2, 3}
+		}
+		for _, n := range ns {
+			for di, d := range devs {
+				for cheater := 0; cheater < n; cheater++ {
+					if !rec.Thorough() && cheater != (di+1)%n {
+						continue
+					}
+					i++
+					if !rec.Mine(i) {
+						continue
+					}
+					ctProp.One(t, ctCase{Setup: advrun.Setup{Proto: p, N: n, T: n - 1, Seed: 2}, Cheater: cheater, Deviation: d})
+				}
+			}
+		}
+	}
+}
+
 // ---- wire-level alterations (O1 universal, O2 for catalogued fields)
 
 type wireCase struct {
